@@ -314,7 +314,9 @@ def _run_hyp(ctx, shard, nshards):
         try:
             test()
             return
-        except AssertionError:
+        except BaseException:
+            # AssertionError = the shrunk failure; anything else while a failure is recorded (typically Hypothesis' Flaky, raised when
+            # a failure depends on hidden state and does not reproduce during shrinking) still reports the recorded failing case
             if ctx.last_fail is None:
                 raise
             case, v, obs = ctx.last_fail
